@@ -68,6 +68,18 @@ func c18RichSchema() models.IndexSchema {
 	}
 }
 
+func c18DottedSchema() models.IndexSchema {
+	return models.IndexSchema{
+		"geo.vec":    {Type: "vectorVamana", VectorVamana: &models.IndexVectorVamanaParameters{VectorSize: 3, DistanceMetric: "euclidean", SearchSize: 75, DegreeBound: 64, Alpha: 1.2}},
+		"geo.flat":   {Type: "vectorFlat", VectorFlat: &models.IndexVectorFlatParameters{VectorSize: 2, DistanceMetric: "dot"}},
+		"geo.name":   {Type: "string", String: &models.IndexStringParameters{CaseSensitive: true}},
+		"meta.tags":  {Type: "stringArray", StringArray: &models.IndexStringArrayParameters{}},
+		"meta.count": {Type: "integer"},
+		"meta.score": {Type: "float"},
+		"meta.text":  {Type: "text", Text: &models.IndexTextParameters{Analyser: "standard"}},
+	}
+}
+
 func c18RichDoc(i int) models.PointAsMap {
 	f := float32(i)
 	return models.PointAsMap{
@@ -188,6 +200,18 @@ func c18BuildFixture(e *c18Env) error {
 	}
 	if err := e.create("alice", "plain", models.IndexSchema{}, map[uuid.UUID]models.PointAsMap{
 		c18Id(1): {"a": int64(1), "b": map[string]any{"c": "x"}}, c18Id(2): {"a": "two"}}); err != nil {
+		return err
+	}
+	// dotted (nested) index properties of every kind
+	dotted := map[uuid.UUID]models.PointAsMap{}
+	for i := 0; i < 4; i++ {
+		f := float32(i)
+		dotted[c18Id(i+1)] = models.PointAsMap{
+			"geo":  map[string]any{"vec": []float32{f, 1, 2}, "flat": []float32{1, f}, "name": fmt.Sprintf("n%d", i)},
+			"meta": map[string]any{"tags": []string{"t", fmt.Sprintf("t%d", i)}, "count": int64(i), "score": float64(i) / 2, "text": "alpha beta"},
+		}
+	}
+	if err := e.create("alice", "dotted", c18DottedSchema(), dotted); err != nil {
 		return err
 	}
 	wide := make([]float32, 4096)
